@@ -16,6 +16,8 @@ type Ctx struct {
 	P    *engine.Prog
 	R    *report.Run
 	Tier string
+
+	guardDepth int // recursion guard of nameGuard
 	// VerifDir is /verif (fixtures, mutants).
 	VerifDir string
 
